@@ -11,7 +11,7 @@ def handle (line : String) : String :=
   match (Driver.Re.field ts "re").bind Driver.Re.parseAst with
   | none => id ++ " BAD ast"
   | some r =>
-    let (ps, gs) := chainSplit r
-    id ++ " C " ++ toString ps.length ++ " " ++ (if gs.isEmpty then "-" else ",".intercalate (gs.map fun g => toString g.gmin ++ ":" ++ toString g.gmax))
+    let rest := (chainSplit r).2
+    id ++ " C " ++ toString (rest.length + 1) ++ " " ++ (if rest.isEmpty then "-" else ",".intercalate (rest.map fun gp => toString gp.1.gmin ++ ":" ++ toString gp.1.gmax))
 
 end Driver.Resplit
